@@ -423,6 +423,9 @@ def error_branches_ok():
 
 # ----------------------------------------------------------------------------- replay
 def replay(rep):
+    if rep['replay'].get('protocol') == 'values_only':
+        from props import _purity
+        return _purity.replay_protocol(rep['replay'])
     r = rep['replay']; kind = r.get('kind')
     try:
         if kind == 'chain':
@@ -726,3 +729,7 @@ def run(ctx):
             ctx.violation('exception/lar_is_back/real', 'raised %r' % ex, {'kind': 'lar_is_back', 'g': vlib.hexv(g), 's': vlib.hexv(s)})
     report(error_branches_ok(), {'kind': 'guards'})
     ctx.case('guards', nontrivial=False)
+
+    # ---------------- results depend on the VALUES given only: call protocol (repeat, aliasing, buffer reuse, memory layout, integer / single-precision dtypes)
+    from props import _purity
+    _purity.run_protocol(ctx, ['rc2poly', 'rc2ac', 'rc2lar', 'lar2rc', 'rc2is', 'is2rc', 'poly2rc', 'ac2poly', 'ac2rc', 'poly2lsf'])
